@@ -231,6 +231,7 @@ def gen(rng, tier):
     yield {"kind": "rng-trace", "mode": "weak", "sub": rng.randrange(1 << 30)}
     yield {"kind": "distinct-rows", "parallel": True, "ntraj": 16, "sub": rng.randrange(1 << 30)}
     yield {"kind": "distinct-rows", "parallel": False, "ntraj": 8, "sub": rng.randrange(1 << 30)}
+    yield {"kind": "distinct-shots", "n": 40, "shots": 48}
     for m in ("strong", "analog1", "analog2"):
         yield {"kind": "noise-run", "mode": m, "sub": rng.randrange(1 << 30)}
     for _ in range(3 * n):
@@ -974,6 +975,33 @@ def run_noise_run(inp):
             "oracle": {"ok": not probs, "detail": "; ".join(probs) or f"{inp['mode']}: one sampled model per run, caller's model untouched"},
             "sig": f"noise-run:{inp['mode']}"}
 
+
+def distinct_shots_child(a):
+    """shots of one measure_shots call are drawn in pool workers: each must use its own randomness"""
+    n, shots = a
+    warnings.simplefilter("ignore")
+    state = MPS(n, state="x+")
+    counts = state.measure_shots(shots)
+    return {"n": n, "shots": shots, "distinct": len(counts), "total": int(sum(counts.values())), "max": int(max(counts.values()))}
+
+
+def run_distinct_shots(inp):
+    status, res = in_child(distinct_shots_child, (int(inp.get("n", 40)), int(inp.get("shots", 48))), timeout=240)
+    if status == "timeout":
+        raise RuntimeError("distinct-shots child timed out")
+    probs = []
+    if status == "exc":
+        probs.append(str(res))
+    else:
+        if res["total"] != res["shots"]:
+            probs.append(f"{res['total']} shots returned for {res['shots']}")
+        if res["distinct"] != res["shots"]:
+            # 2^40 equally likely outcomes: a repeated outcome among 48 independent shots has probability 1e-9
+            probs.append(f"{res['shots']} shots of |+>^{res['n']} (2^{res['n']} equally likely outcomes) gave only {res['distinct']} distinct "
+                         f"outcomes, one of them {res['max']} times: the pool workers replay the same random stream")
+    return {"req": None, "impl": None, "kind": "distinct-shots", "sig": "distinct-shots",
+            "oracle": {"ok": not probs, "detail": "; ".join(probs) or f"{res['shots']} pool-drawn shots pairwise distinct"}}
+
 def run(inp):
     res = run_inner(inp)
     if "corpus_file" in inp:
@@ -996,6 +1024,8 @@ def run_inner(inp):
         return run_refused(inp)
     if k == "distinct-rows":
         return run_distinct(inp)
+    if k == "distinct-shots":
+        return run_distinct_shots(inp)
     if k == "noise-init":
         return run_noise_init(inp)
     if k == "noise-sample":
